@@ -93,13 +93,28 @@ void CAT(__wrap_, SYM_REM)(void *self, size_t index)
 }
 }
 
+// The trace since (and including) the last removeAllIssues: what precedes a clear cannot matter.
 static std::string joinOps(const std::vector<std::string> &v)
 {
-    std::string s;
+    size_t from = 0;
     for (size_t i = 0; i < v.size(); ++i) {
-        s += (i ? "," : "") + v[i];
+        if (v[i] == "c") {
+            from = i;
+        }
+    }
+    std::string s;
+    for (size_t i = from; i < v.size(); ++i) {
+        s += (i > from ? "," : "") + v[i];
     }
     return s.empty() ? "-" : s;
+}
+
+// a new service object may be allocated where a dead one was: forget that one's trace
+template<typename T>
+static T fresh(T svc)
+{
+    gTrace.erase(static_cast<Logger *>(svc.get())->pFunc());
+    return svc;
 }
 
 // ------------------------------------------------------------------------------------------------ canonical state
@@ -293,6 +308,9 @@ static Coh checkLoggerCoherent(Logger *logger)
             auto r = readAll(item);
             int own = accessorFor(t);
             for (int k = 0; k < 8; ++k) {
+                if (t == CellmlElementType::MATH && k == 0) {
+                    continue; // component() of a MATH item: nullptr (unchanged tree, finding) or the stored component (repaired); checked below
+                }
                 if (k != own && r[size_t(k)] != nullptr) {
                     bad << "issue(" << i << ").item:type=" << cellmlElementTypeAsString(t) << "-answers-accessor-" << k << ";";
                 }
@@ -306,6 +324,8 @@ static Coh checkLoggerCoherent(Logger *logger)
                 }
                 if (stored != nullptr && item->component() == nullptr) {
                     ++c.mathUnreachable;
+                } else if (item->component() != stored) {
+                    bad << "issue(" << i << ").item:type=math-component()-is-not-the-stored-component;";
                 }
             } else if (own >= 0 && r[size_t(own)] == nullptr) {
                 ++c.nullPayload;
@@ -361,6 +381,17 @@ static std::string explainedIf(bool failing, Logger *logger)
         return "na";
     }
     return logger->issueCount() > 0 ? "ok" : "MISSING";
+}
+
+// With C15_ANNOUNCE set, every service call is named on stderr before it is made (the check re-runs a crashed
+// case this way to say which call did not return).
+static void announce(const std::string &what)
+{
+    static const bool on = getenv("C15_ANNOUNCE") != nullptr;
+    if (on) {
+        fprintf(stderr, "CALL %s\n", what.c_str());
+        fflush(stderr);
+    }
 }
 
 // ------------------------------------------------------------------------------------------------ mode rules
@@ -530,13 +561,16 @@ static std::string typeName(AnalyserModel::Type t)
 
 static void annotatorScenarios(const ModelPtr &model, std::vector<std::string> &out)
 {
-    auto ann = Annotator::create();
+    auto ann = fresh(Annotator::create());
     Logger *lg = ann.get();
     auto rec = [&](const std::string &call, const std::string &res, bool failing) {
         out.push_back(record("annotator", call, res, lg, explainedIf(failing, lg)));
     };
     // no model stored
     {
+        ModelPtr nullModel0;
+        bool b0 = ann->assignAllIds(nullModel0); // on a fresh annotator: nothing logged before
+        rec("assignAllIds_nullmodel_fresh", b0 ? "1" : "0", !b0);
         auto it = ann->item("x");
         rec("item_nomodel", it->type() == CellmlElementType::UNDEFINED ? "undef" : "found", it->type() == CellmlElementType::UNDEFINED);
         bool b = ann->assignAllIds();
@@ -599,12 +633,15 @@ static void annotatorScenarios(const ModelPtr &model, std::vector<std::string> &
     }
     // assignments
     {
+        ann->ids();
         std::string s = ann->assignId(ComponentPtr());
         rec("assignId_nullcomponent", s.empty() ? "empty" : "id", s.empty());
         s = ann->assignId(VariablePtr());
         rec("assignId_nullvariable", s.empty() ? "empty" : "id", s.empty());
+        ann->ids(); // clears the issue list (update()), so that a silent failure is not masked by older issues
         s = ann->assignId(Component::create("foreign"));
         rec("assignId_foreign", s.empty() ? "empty" : "id", s.empty());
+        ann->ids();
         s = ann->assignId(model, CellmlElementType::VARIABLE); // tag does not fit the object
         rec("assignId_inconsistent", s.empty() ? "empty" : "id", s.empty());
         s = ann->assignId(model);
@@ -643,7 +680,8 @@ static std::string modeSvc(const std::string &line)
     ModelPtr model;
     for (char st : steps) {
         if (st == 'P' || st == 'Q') {
-            auto parser = Parser::create(st == 'P');
+            auto parser = fresh(Parser::create(st == 'P'));
+            announce("parser.parseModel");
             auto m = parser->parseModel(doc);
             out.push_back(record(st == 'P' ? "parser_strict" : "parser_permissive", "parseModel", m ? "model" : "null", parser.get(),
                                  explainedIf(m == nullptr, parser.get())));
@@ -655,7 +693,8 @@ static std::string modeSvc(const std::string &line)
                 model = m;
             }
         } else if (st == 'V') {
-            auto validator = Validator::create();
+            auto validator = fresh(Validator::create());
+            announce("validator.validateModel");
             validator->validateModel(model);
             out.push_back(record("validator", "validateModel", std::to_string(validator->errorCount()), validator.get(), "na"));
             validator->validateModel(model);
@@ -664,7 +703,8 @@ static std::string modeSvc(const std::string &line)
             if (model == nullptr) {
                 continue;
             }
-            auto analyser = Analyser::create();
+            auto analyser = fresh(Analyser::create());
+            announce("analyser.analyseModel");
             analyser->analyseModel(model);
             auto am = analyser->model();
             auto ty = am ? am->type() : AnalyserModel::Type::UNKNOWN;
@@ -672,22 +712,25 @@ static std::string modeSvc(const std::string &line)
                            || ty == AnalyserModel::Type::OVERCONSTRAINED || ty == AnalyserModel::Type::UNSUITABLY_CONSTRAINED;
             out.push_back(record("analyser", "analyseModel", typeName(ty), analyser.get(), explainedIf(failing, analyser.get())));
         } else if (st == 'R') {
-            auto printer = Printer::create();
+            auto printer = fresh(Printer::create());
+            announce("printer.printModel");
             std::string s = printer->printModel(model);
             out.push_back(record("printer", "printModel", s.empty() ? "empty" : "text", printer.get(), "na"));
             s = printer->printModel(model, true);
             out.push_back(record("printer", "printModel_autoids", s.empty() ? "empty" : "text", printer.get(), "na"));
         } else if (st == 'N') {
+            announce("annotator.scenarios");
             annotatorScenarios(model, out);
         } else if (st == 'X') {
             // Annotator::item(id, index) with exactly one item of that id and index >= 1
             if (model == nullptr) {
                 continue;
             }
-            auto ann = Annotator::create();
+            auto ann = fresh(Annotator::create());
             ann->setModel(model);
             for (const auto &id : ann->ids()) {
                 if (ann->itemCount(id) == 1) {
+                    announce("annotator.item(id,1)");
                     auto it = ann->item(id, 1);
                     out.push_back(record("annotator", "item_idx_past_single", it->type() == CellmlElementType::UNDEFINED ? "undef" : "found", ann.get(),
                                          explainedIf(it->type() == CellmlElementType::UNDEFINED, ann.get())));
@@ -724,28 +767,33 @@ static std::string modeImp(const std::string &line)
     std::string mainFile = t.at(3);
     std::string script = t.at(4);
     std::vector<std::string> out;
-    auto parser = Parser::create(strict);
+    auto parser = fresh(Parser::create(strict));
+    announce("parser.parseModel(main)");
     auto model = parser->parseModel(slurp(dir + "/" + mainFile));
     out.push_back(record(strict ? "parser_strict" : "parser_permissive", "parseModel", model ? "model" : "null", parser.get(),
                          explainedIf(model == nullptr, parser.get())));
-    auto importer = Importer::create(strict);
+    auto importer = fresh(Importer::create(strict));
     Logger *lg = importer.get();
     for (char st : script) {
         if (st == 'r') {
             if (model == nullptr) {
                 continue;
             }
+            announce("importer.resolveImports");
             bool ok = importer->resolveImports(model, dir + "/");
+            announce(std::string("-> resolveImports=") + (ok ? "1" : "0"));
             out.push_back(record("importer", "resolveImports", ok ? "1" : "0", lg, explainedIf(!ok, lg)));
         } else if (st == 'f' || st == 'u') {
             if (model == nullptr) {
                 continue;
             }
+            announce("importer.flattenModel");
             auto flat = importer->flattenModel(model);
             out.push_back(record("importer", st == 'f' ? "flattenModel" : "flattenModel_unresolved", flat ? "model" : "null", lg,
                                  explainedIf(flat == nullptr, lg)));
         } else if (st == 'n') {
             ModelPtr nullModel;
+            announce("importer.resolveImports(null)");
             bool ok = importer->resolveImports(nullModel, dir + "/");
             out.push_back(record("importer", "resolveImports_null", ok ? "1" : "0", lg, explainedIf(!ok, lg)));
             auto flat = importer->flattenModel(nullModel);
